@@ -401,3 +401,18 @@ Example multi_nv :
   /\ match_recs (mdone 0 Mk) (mfile 0 (mfinish Mk)) = true
   /\ match_recs (mdone 1 Mk) (mfile 1 (mfinish Mk)) = true.
 Proof. vm_compute. repeat split; try reflexivity; discriminate. Qed.
+
+(* the crashing thread among several: it stored every record of its history and of the handler's flush
+   before the process died; whatever the other threads were doing, its file is its whole eager trace *)
+Theorem multi_crashed_thread_is_complete cap recss sched t ops :
+  t < length recss ->
+  wf_ops [] ops = true ->
+  nth t recss [] = concat (snd (ops_run [] ops)) ++ segv_flush (fst (ops_run [] ops)) ->
+  let Mk := mrun true cap sched (minit recss) in
+  mdone t Mk = nth t recss [] ->
+  match_recs (eager [] ops) (mfile t (mfinish Mk)) = true.
+Proof.
+  intros Ht Hwf Hrecs Mk Hdone.
+  destruct (multi_prefix cap recss sched t Ht) as [Hm _]. fold Mk in Hm.
+  rewrite Hdone, Hrecs, (lazy_plus_flush_is_eager ops Hwf) in Hm. exact Hm.
+Qed.
